@@ -3,7 +3,7 @@
    opcode replaced by the quiet one or back; [wf_req]: the variant agrees with
    the header's opcode (what the decoder delivers: C10_decode_wf). *)
 From MC Require Import Model.Base Model.Generated Model.Store Model.Memc Model.Codec Model.Handler
-  Spec.Exec Spec.Quiet Proofs.StoreLemmas Proofs.SetLemmas Proofs.MemcLemmas Proofs.Effects Proofs.PC19.
+  Spec.Exec Spec.Quiet Proofs.StoreLemmas Proofs.SetLemmas Proofs.MemcLemmas Proofs.Effects Proofs.PC19 Proofs.PRoutes.
 
 (* the resulting store is identical: content, CAS counter, clock, accounting *)
 Theorem C19_same_effect : forall req s,
@@ -81,3 +81,20 @@ Example C19_nonvacuous :
   twin (ReqSet VAdd (mkHdr 128 2 1 8 0 0 10 0 0) 0 0 [x61] [x31]) =
     ReqSet VAddQ (mkHdr 128 18 1 8 0 0 10 0 0) 0 0 [x61] [x31].
 Proof. split; reflexivity. Qed.
+
+(* the handler's routing is the source's. Generated.handler_routes is translated on
+   every run from the match in BinaryHandler::handle_request: one row per arm
+   (request variant, handler function, filter: always answered / into_quiet_mutation
+   / into_quiet_get). For every row and all headers, keys, values, numeric fields and
+   stores, the model's handle_request sends that request to that handler and applies
+   that filter; and every request of the model is a variant of the table. In
+   particular each quiet variant runs the same handler as its loud twin: a quiet arm
+   routed elsewhere in the source breaks this obligation. *)
+Theorem C19_routes_are_source : Forall route_ok handler_routes.
+Proof. exact routes_are_source. Qed.
+Print Assumptions C19_routes_are_source.
+
+Theorem C19_every_request_routed : forall req,
+  exists vid a, mk_req vid a = Some req /\ In vid (map (fun r => fst (fst r)) handler_routes).
+Proof. exact every_request_routed. Qed.
+Print Assumptions C19_every_request_routed.
